@@ -68,6 +68,11 @@ pub struct Profile {
     pub boundary_sequences: bool,
     pub unreachable_hops: bool,
     pub reply_from_other: bool,
+    /// Most responders emit RFC 4884 structures.
+    pub ext_heavy: bool,
+    /// Several ECMP paths in most runs.
+    pub ecmp_heavy: bool,
+    pub small_max_flows: bool,
 }
 
 impl Profile {
@@ -97,6 +102,9 @@ impl Profile {
             boundary_sequences: true,
             unreachable_hops: true,
             reply_from_other: true,
+            ext_heavy: false,
+            ecmp_heavy: false,
+            small_max_flows: false,
         }
     }
 }
@@ -117,7 +125,9 @@ fn gen_objects(t: &mut Tape) -> Vec<ExtObject> {
                         _ => t.draw(0x10_0000),
                     },
                     exp: t.draw(8) as u8,
-                    bos: u8::from(m + 1 == members) ^ u8::from(t.chance(50)),
+                    // RFC 4950: S is set on the bottom entry only; a router may also quote a
+                    // stack whose bottom it does not include (S clear on the last entry)
+                    bos: u8::from(m + 1 == members && !t.chance(60)),
                     ttl: match t.pick(3) {
                         0 => 1,
                         1 => 255,
@@ -152,7 +162,8 @@ fn gen_layout(t: &mut Tape, p: &Profile) -> ErrorLayout {
     if !p.extensions {
         return ErrorLayout::Plain;
     }
-    match t.weighted(&[55, 20, 10, 15]) {
+    let weights: [u32; 4] = if p.ext_heavy { [10, 45, 15, 30] } else { [55, 20, 10, 15] };
+    match t.weighted(&weights) {
         0 => ErrorLayout::Plain,
         1 => ErrorLayout::Compliant(gen_objects(t)),
         2 => ErrorLayout::CompliantNoExt,
@@ -274,7 +285,13 @@ pub fn gen_scenario(t: &mut Tape, p: &Profile) -> Scenario {
             _ => t.draw(p.max_path),
         }
     };
-    let npaths = if p.ecmp { 1 + t.weighted(&[65, 20, 10, 5]) as u32 } else { 1 };
+    let npaths = if p.ecmp_heavy {
+        1 + t.weighted(&[10, 40, 30, 20]) as u32
+    } else if p.ecmp {
+        1 + t.weighted(&[65, 20, 10, 5]) as u32
+    } else {
+        1
+    };
     let paths = gen_paths(t, p, v6, 0, npaths, base_len);
     let route_change = if p.route_change && t.chance(100) {
         let at = 1 + t.draw(4);
@@ -415,10 +432,14 @@ pub fn gen_scenario(t: &mut Tape, p: &Profile) -> Scenario {
             2 => 1,
             _ => 1 + t.draw(20) as usize,
         },
-        max_flows: match t.pick(3) {
-            0 => 64,
-            1 => 1 + t.draw(4) as usize,
-            _ => 1 + t.draw(64) as usize,
+        max_flows: if p.small_max_flows {
+            1 + t.draw(6) as usize
+        } else {
+            match t.pick(3) {
+                0 => 64,
+                1 => 1 + t.draw(4) as usize,
+                _ => 1 + t.draw(64) as usize,
+            }
         },
         explicit_source: t.chance(300),
         interface: None,
@@ -564,5 +585,7 @@ pub fn gen_scenario(t: &mut Tape, p: &Profile) -> Scenario {
         faults,
         stable,
         light: false,
+        mutation: None,
+        sniff: false,
     }
 }
